@@ -255,6 +255,9 @@ func (d c19) Execute(c *core.Case) *core.Result {
 			if n >= c.Config["thr"] {
 				feats = append(feats, "approvals-alone-meet-branch-rule")
 			}
+			if n == 0 {
+				feats = append(feats, "no-trusted-approval-counted")
+			}
 		}
 		if pol := run.L.PolicyBefore(len(w.Entries)); pol != nil && len(pol.GlobalRules) > 0 {
 			feats = append(feats, "policy-has-global-rule")
